@@ -214,7 +214,7 @@ class Gen:
         return ("pipe", [("pstep", self.body_fid(), [self.option() for _ in range(rng.randint(0, 1))])
                          for _ in range(rng.randint(0, 3))])
 
-    def expr(self, depth):
+    def expr(self, depth, root=False):
         rng = self.rng
         if depth <= 0 or rng.random() < 0.25:
             return self.leaf()
@@ -267,7 +267,10 @@ class Gen:
                     its.append((kk, ("value", ("j", [rand_scalar(rng) for _ in range(rng.randint(0, 2))]))))
                 else:
                     its.append((kk, ("option", K(LST), ("value", ("j", [1, 2])) if rng.random() < 0.5 else None, None)))
-            return ("map", self.expr(d), its)
+            m = ("map", self.expr(d), its)
+            # a bare Map is a generator: consumed lazily, so effects of later siblings would come
+            # first; keep bare ones at the root only, elsewhere consume at once (.apply(list))
+            return m if (root and rng.random() < 0.6) else ("tolist", m)
         if r < 0.74 and self.f["with_presets"]:
             self.note("with")
             return ("with", rng.random() < 0.5, rand_preset(rng), self.expr(d))
@@ -337,7 +340,7 @@ class Gen:
                 self.dataset(i)
         exprs = []
         for _ in range(n_exprs):
-            exprs.append(self.expr(depth) if rng.random() < 0.7 else ("dataset", rng.choice(list(self.env))))
+            exprs.append(self.expr(depth, root=True) if rng.random() < 0.7 else ("dataset", rng.choice(list(self.env))))
         pool = dict_pool or self.dict_pool()
         ops = []
         for _ in range(n_ops):
